@@ -1118,6 +1118,11 @@ func runC18(r *Rng, tier string, n int) {
 	// (1d) KEY objects that change between calls; the window at its exact bounds
 	oracleKeyChange(r, keys)
 	oracleWindowExact(r, keys)
+	// (1i) the public key field: genuine material plus / minus octets, every RSA
+	// exponent encoding, ECDSA signatures with leading zero octets in r or s
+	oracleKeyMaterial(r, keys)
+	oracleKeyEncodings(r, keys)
+	oracleEcdsaLeadingZeros(r, keys)
 	// (2) validity window, malformed input
 	wm := new(dns.Msg)
 	wm.SetQuestion("example.org.", dns.TypeSOA)
